@@ -24,8 +24,18 @@ def _env():
     return e
 
 
+def _target_for(repo):
+    # never share build artifacts between different source trees: cargo-kani's per-harness outputs are
+    # not keyed by the source path, and a stale output of another tree would be taken as up to date
+    rp = os.path.realpath(repo)
+    if rp == '/repo' or os.environ.get('VERIF_KANI_TARGET'):
+        return TARGET
+    import hashlib
+    return TARGET + '-' + hashlib.sha256(rp.encode()).hexdigest()[:8]
+
+
 def _cargo_kani(repo, args, timeout):
-    cmd = ['cargo', 'kani', '--target-dir', TARGET, '-Z', 'function-contracts', '-Z', 'stubbing'] + args
+    cmd = ['cargo', 'kani', '--target-dir', _target_for(repo), '-Z', 'function-contracts', '-Z', 'stubbing'] + args
     t0 = time.time()
     try:
         p = subprocess.run(cmd, cwd=repo, env=_env(), stdout=subprocess.PIPE, stderr=subprocess.STDOUT,
